@@ -52,6 +52,10 @@ def cases(tier, seed):
             d = files.wspec_desc(rng, (nI, nX, rng.randint(5, 40)), rate, bs, version=[0, 2, 9], holes=holes,
                                  il=[rng.choice([1, 5]), 1], narr=3)
             out.append({'id': 'wi:%s:%s:%d' % (rate, 'x'.join(map(str, bs)), rep), 'file': d, 'nops': 30, 'cost': 1})
+    # wider cubes: the number of 4x4 trace columns a diagonal crosses (5, 9, 10, 17, 20 here) decides how many chunks the reader must hold
+    for j, (nI, nX) in enumerate([(19, 18), (36, 37), (40, 43), (68, 66), (17, 80)] if tier == 'quick' else [(19, 18), (36, 37), (40, 43), (68, 66), (17, 80), (85, 88), (33, 35), (20, 20)]):
+        d = files.wspec_desc(rng, (nI, nX, rng.choice([5, 9])), 8, (4, 4, 256), narr=1, version=[0, 2, 9])
+        out.append({'id': 'w3:wide:%dx%d' % (nI, nX), 'file': d, 'nops': 24, 'cost': 3, 'wide': True})
     return out
 
 
@@ -272,6 +276,48 @@ def run_case(case, ctx):
             if backend == 'local':
                 h.close()
             strata.add('backend:' + backend)
+    # ---- immediate repeats: what a reader has just decoded it holds (one-slot caches per loader method; the chunk cache is sized to hold
+    # an arbitrary diagonal): the same call again, or a neighbour of the same unit of four reached through another API (ordinal / line
+    # number / coordinate), fetches nothing
+    if not sp.is2d:
+        nI, nX, nZ = sp.shape
+        il_, xl_ = sp.ilines(), sp.xlines()
+        default_layout = tuple(sp.bs[:2]) == (4, 4)
+        rep_ops = []
+        for op in ops:
+            if op[0] in ('read_inline', 'read_crossline', 'read_zslice', 'get_trace', 'read_correlated_diagonal', 'read_anticorrelated_diagonal', 'read_subvolume') \
+                    and op[0] not in [o[0][0] for o in rep_ops]:
+                rep_ops.append((op, op))
+        # the longest diagonals (a diagonal is read chunk by chunk through the reader's chunk cache)
+        for dop in (('read_correlated_diagonal', (0,)), ('read_anticorrelated_diagonal', (min(nI, nX) - 1,)), ('read_correlated_diagonal', (min(1, nI - 1),))):
+            rep_ops.append((dop, dop))
+        if default_layout and gm is None:
+            i, x, z = rng.randrange(nI), rng.randrange(nX), rng.randrange(nZ)
+            i2, x2, z2 = min(nI - 1, i // 4 * 4 + (i + 1) % 4), min(nX - 1, x // 4 * 4 + (x + 1) % 4), min(nZ - 1, z // 4 * 4 + (z + 1) % 4)
+            with_r = SgzReader(path)
+            zc = float(with_r.zslices[z])
+            with_r.close()
+            rep_ops += [(('read_inline_number', (int(il_[i]),)), ('read_inline', (i2,))), (('read_inline', (i,)), ('read_inline_number', (int(il_[i2]),))),
+                        (('read_crossline_number', (int(xl_[x]),)), ('read_crossline', (x2,))), (('read_zslice_coord', (zc,)), ('read_zslice', (z2,)))]
+        for backend in ('local', 'blob'):
+            for first, second in rep_ops:
+                h, r = open_reader(backend, False)
+                try:
+                    getattr(r, first[0])(*first[1])
+                    mark = len(h.log)
+                    getattr(r, second[0])(*second[1])
+                except Exception:  # noqa
+                    _clear(r)
+                    continue
+                again = [x_ for x_ in h.log[mark:] if sp.data0 <= x_[0] < sp.footer0]
+                counters['immediate_repeats'] = counters.get('immediate_repeats', 0) + 1
+                if again:
+                    bad.append({'sig': '%s:refetched-what-the-reader-just-decoded' % second[0],
+                                'detail': '%s%s right after %s%s on the same reader fetched %d range(s) of the data section again, e.g. %s'
+                                          % (second[0], second[1], first[0], first[1], len(again), again[:2])})
+                _clear(r)
+                if backend == 'local':
+                    h.close()
     # ---- irregular files: the population mask (the stored inline-number array) is metadata a sample read may need once per reader;
     # a reader that has it must not fetch it again for later sample reads, whatever header reads happened in between
     if gm is not None and 189 in sp.stored:
